@@ -319,6 +319,8 @@ class Natives(object):
             return QUALIFIED[q](ex, st, args, kwargs, e)
         if q in REGISTRY:
             return ex.apply_contract(st, q, self.bind_args(ex, q, args, kwargs, e), e)
+        if q in getattr(ex.case, 'inline', ()):
+            return self.inline_call(ex, st, q, args, kwargs, e)
         # class constructor?
         if q + '.__init__' in REGISTRY:
             return self.construct(ex, st, q, args, kwargs, e)
@@ -404,6 +406,32 @@ class Natives(object):
         if chosen.status != 'verified':
             ex.assumed_log.append('%s [%s]' % (qi, chosen.status))
         return obj
+
+    def inline_call(self, ex, st, q, args, kwargs, e):
+        """Execute the body of a small straight-line repo helper in place of a contract
+        (the caller is then checked against the callee's real body)."""
+        mi, fn = find_function(ex.module.repo, q)
+        bound = self.bind_args(ex, q, args, kwargs, e)
+        names = [a.arg for a in fn.args.args]
+        dflt = fn.args.defaults
+        saved_env, saved_mod = st.env, ex.module
+        st.env = {}
+        for i, nm in enumerate(names):
+            if nm in bound:
+                st.env[nm] = bound[nm]
+            else:
+                d = dflt[i - (len(names) - len(dflt))]
+                st.env[nm] = ex.eval(st, d)
+        ex.module = mi
+        try:
+            outs = ex.exec_block(fn.body, st)
+        finally:
+            ex.module = saved_mod
+        rets = [o for o in outs if o[0] in ('return', 'normal')]
+        if len(outs) != 1 or len(rets) != 1 or rets[0][1] is not st:
+            raise Undecided('inlined callee %s is not straight-line' % q)
+        st.env = saved_env
+        return rets[0][2] if rets[0][0] == 'return' else vnone()
 
     def super_init(self, ex, st, e):
         """super(...).__init__(args): the base-class __init__ is executed inline."""
